@@ -75,7 +75,11 @@ type FnInfo struct {
 
 var fnInfoCache = map[*ssa.Function]*FnInfo{}
 
-func resetCaches() { fnInfoCache = map[*ssa.Function]*FnInfo{} }
+func resetCaches() {
+	fnInfoCache = map[*ssa.Function]*FnInfo{}
+	iifeCache = map[*ssa.Function]*ssa.Call{}
+	iifeKnown = map[*ssa.Function]bool{}
+}
 
 func Info(fn *ssa.Function) *FnInfo {
 	if fi, ok := fnInfoCache[fn]; ok {
@@ -162,6 +166,109 @@ func loopsOf(fn *ssa.Function) []*Loop {
 	return ls
 }
 
+// ---- immediately-invoked function literals ---------------------------------------------------------
+//
+// `x := func() T { … }()` is what the source-level inliner (normalise.go) leaves behind when it cannot
+// reduce a call completely.  Such a literal has exactly one call site, so it is analysed as part of its
+// parent: walkers step into it at the call and come back at its returns, enumerations include its
+// instructions, loop membership is that of the call site, and value matchers look through captured
+// variables and the returned value (match.go strip/canon).
+
+var iifeCache = map[*ssa.Function]*ssa.Call{}
+var iifeKnown = map[*ssa.Function]bool{}
+
+// iifeCall: the unique call of fn if fn is a function literal that is invoked where it is written.
+func iifeCall(fn *ssa.Function) *ssa.Call {
+	if fn == nil || fn.Parent() == nil {
+		return nil
+	}
+	if iifeKnown[fn] {
+		return iifeCache[fn]
+	}
+	iifeKnown[fn] = true
+	var found *ssa.Call
+	n := 0
+	for _, b := range fn.Parent().Blocks {
+		for _, in := range b.Instrs {
+			for _, op := range in.Operands(nil) {
+				switch x := (*op).(type) {
+				case *ssa.MakeClosure:
+					if x.Fn == ssa.Value(fn) {
+						if cl, ok := in.(*ssa.Call); ok && cl.Call.Value == ssa.Value(x) {
+							found = cl
+						}
+						n++
+					}
+				case *ssa.Function:
+					if x == fn {
+						if cl, ok := in.(*ssa.Call); ok && cl.Call.Value == ssa.Value(x) {
+							found = cl
+						}
+						n++
+					}
+				}
+			}
+		}
+	}
+	if n != 1 {
+		found = nil
+	}
+	iifeCache[fn] = found
+	return found
+}
+
+// iifeCallee: in is the call of an immediately-invoked literal; returns the literal.
+func iifeCallee(in ssa.Instruction) *ssa.Function {
+	cl, ok := in.(*ssa.Call)
+	if !ok || cl.Call.IsInvoke() {
+		return nil
+	}
+	var g *ssa.Function
+	switch x := cl.Call.Value.(type) {
+	case *ssa.MakeClosure:
+		g, _ = x.Fn.(*ssa.Function)
+	case *ssa.Function:
+		g = x
+	}
+	if g == nil || len(g.Blocks) == 0 || iifeCall(g) != cl {
+		return nil
+	}
+	return g
+}
+
+// rootBlock maps a block of an immediately-invoked literal (at any nesting depth) to the block of its call
+// site in root; nil if b does not belong to root that way.
+func rootBlock(root *ssa.Function, b *ssa.BasicBlock) *ssa.BasicBlock {
+	for d := 0; b != nil && d < 8; d++ {
+		if b.Parent() == root {
+			return b
+		}
+		cl := iifeCall(b.Parent())
+		if cl == nil {
+			return nil
+		}
+		b = cl.Block()
+	}
+	return nil
+}
+
+// resumeAfter: the point after the call site of the immediately-invoked literal that owns block b.
+func resumeAfter(b *ssa.BasicBlock) (Pt, bool) {
+	cl := iifeCall(b.Parent())
+	if cl == nil {
+		return Pt{}, false
+	}
+	cb := cl.Block()
+	for i, x := range cb.Instrs {
+		if x == ssa.Instruction(cl) {
+			return Pt{cb, i + 1}, true
+		}
+	}
+	return Pt{}, false
+}
+
+func edgeItemsOf(b *ssa.BasicBlock, k int) []Item { return Info(b.Parent()).EdgeItems(b, k) }
+
 // EdgeItems returns the virtual items on the edge b -> b.Succs[k].
 func (fi *FnInfo) EdgeItems(b *ssa.BasicBlock, k int) []Item {
 	if m := fi.edge[b]; m != nil {
@@ -175,6 +282,9 @@ func (fi *FnInfo) Each(f func(it Item)) {
 	for _, b := range fi.Fn.Blocks {
 		for _, in := range b.Instrs {
 			f(Item{In: in})
+			if g := iifeCallee(in); g != nil {
+				Info(g).Each(f)
+			}
 		}
 		for k := range b.Succs {
 			for _, it := range fi.EdgeItems(b, k) {
@@ -197,6 +307,11 @@ func (fi *FnInfo) Find(ev Ev) []Item {
 
 // InnermostLoop containing block b (nil if none).
 func (fi *FnInfo) InnermostLoop(b *ssa.BasicBlock) *Loop {
+	if b != nil && b.Parent() != fi.Fn {
+		if rb := rootBlock(fi.Fn, b); rb != nil {
+			b = rb
+		}
+	}
 	var best *Loop
 	for _, l := range fi.Loops {
 		if l.Blocks[b] && (best == nil || len(l.Blocks) < len(best.Blocks)) {
@@ -290,11 +405,93 @@ func phiCond(b *ssa.BasicBlock) (*ssa.Phi, bool) {
 	return ph, neg
 }
 
+// nilPhiCond: the block ends in `if φ != nil` / `if φ == nil` (possibly negated) with φ a phi defined in this
+// block — the shape of `r := <result variable merged from several assignments>; if r != nil`, which is what
+// a spliced helper with several returns leaves behind.  isNE: the true branch is taken when φ is non-nil.
+func nilPhiCond(b *ssa.BasicBlock) (ph *ssa.Phi, isNE bool) {
+	iff, ok := lastInstr(b).(*ssa.If)
+	if !ok {
+		return nil, false
+	}
+	cond, neg := iff.Cond, false
+	for {
+		if u, ok := cond.(*ssa.UnOp); ok && u.Op == token.NOT {
+			cond, neg = u.X, !neg
+			continue
+		}
+		break
+	}
+	bo, ok := cond.(*ssa.BinOp)
+	if !ok || (bo.Op != token.NEQ && bo.Op != token.EQL) {
+		return nil, false
+	}
+	x, y := bo.X, bo.Y
+	if c, ok := x.(*ssa.Const); ok && c.Value == nil {
+		x, y = y, x
+	}
+	c, ok := y.(*ssa.Const)
+	if !ok || c.Value != nil {
+		return nil, false
+	}
+	ph, ok = x.(*ssa.Phi)
+	if !ok || ph.Block() != b {
+		return nil, false
+	}
+	return ph, (bo.Op == token.NEQ) != neg
+}
+
+// nilnessAt: is v known to be nil / non-nil at the end of block at?  Known when v is the nil constant, or when a
+// dominating test `v != nil` / `v == nil` settles it (v itself may be a phi; one level of copies is followed).
+func nilnessAt(v ssa.Value, at *ssa.BasicBlock) (isNil bool, known bool) {
+	if c, ok := v.(*ssa.Const); ok {
+		if c.Value == nil {
+			return true, true
+		}
+		return false, false
+	}
+	switch v.(type) {
+	case *ssa.MakeInterface, *ssa.Alloc, *ssa.MakeMap, *ssa.MakeSlice, *ssa.MakeChan, *ssa.MakeClosure:
+		return false, true
+	}
+	for d := at; d != nil; d = d.Idom() {
+		p := d.Idom()
+		if p == nil {
+			break
+		}
+		iff, ok := lastInstr(p).(*ssa.If)
+		if !ok || len(p.Succs) != 2 || p.Succs[0] == p.Succs[1] {
+			continue
+		}
+		// d must be entered only through one branch of p
+		if len(d.Preds) != 1 || d.Preds[0] != p {
+			continue
+		}
+		bo, ok := iff.Cond.(*ssa.BinOp)
+		if !ok || (bo.Op != token.NEQ && bo.Op != token.EQL) {
+			continue
+		}
+		x, y := bo.X, bo.Y
+		if c, ok := x.(*ssa.Const); ok && c.Value == nil {
+			x, y = y, x
+		}
+		if c, ok := y.(*ssa.Const); !ok || c.Value != nil || x != v {
+			continue
+		}
+		onTrue := p.Succs[0] == d
+		nonNil := (bo.Op == token.NEQ) == onTrue
+		return !nonNil, true
+	}
+	return false, false
+}
+
 // mkState: state for entering succ from b.
 func mkState(b, succ *ssa.BasicBlock) wstate {
 	if lastInstr(succ) != nil {
 		if _, ok := lastInstr(succ).(*ssa.If); ok {
 			if ph, _ := phiCond(succ); ph != nil {
+				return wstate{succ, 0, b}
+			}
+			if ph, _ := nilPhiCond(succ); ph != nil {
 				return wstate{succ, 0, b}
 			}
 		}
@@ -318,6 +515,21 @@ func feasible(b *ssa.BasicBlock, k int, via *ssa.BasicBlock) bool {
 	}
 	ph, neg := phiCond(b)
 	if ph == nil {
+		// a test of a merged result variable against nil: decided by what flowed in from via
+		if nph, isNE := nilPhiCond(b); nph != nil {
+			for i, pred := range b.Preds {
+				if pred != via {
+					continue
+				}
+				if isNil, known := nilnessAt(nph.Edges[i], pred); known {
+					takeTrue := isNil != isNE
+					if takeTrue {
+						return k == 0
+					}
+					return k == 1
+				}
+			}
+		}
 		return true
 	}
 	for i, pred := range b.Preds {
@@ -368,6 +580,25 @@ func (r *Region) Reach(target Ev, stop Ev) (Item, []*ssa.BasicBlock) {
 				blocked = true
 				break
 			}
+			if g := iifeCallee(b.Instrs[i]); g != nil {
+				// step into the immediately-invoked literal; its returns come back here
+				if _, ok := parent[g.Blocks[0]]; !ok {
+					parent[g.Blocks[0]] = b
+				}
+				stack = append(stack, wstate{g.Blocks[0], 0, nil})
+				blocked = true
+				break
+			}
+			if _, isRet := b.Instrs[i].(*ssa.Return); isRet && b.Parent() != r.Fi.Fn {
+				if pt, ok := resumeAfter(b); ok {
+					if _, ok := parent[pt.B]; !ok && pt.B != b {
+						parent[pt.B] = b
+					}
+					stack = append(stack, wstate{pt.B, pt.I, nil})
+				}
+				blocked = true
+				break
+			}
 		}
 		if blocked {
 			continue
@@ -380,7 +611,7 @@ func (r *Region) Reach(target Ev, stop Ev) (Item, []*ssa.BasicBlock) {
 				continue
 			}
 			edgeBlocked := false
-			for _, it := range r.Fi.EdgeItems(b, k) {
+			for _, it := range edgeItemsOf(b, k) {
 				if target(it) {
 					return it, pathTo(parent, b)
 				}
@@ -394,7 +625,7 @@ func (r *Region) Reach(target Ev, stop Ev) (Item, []*ssa.BasicBlock) {
 			if r.Head != nil && succ == r.Head {
 				continue
 			}
-			if r.Allowed != nil && !r.Allowed[succ] {
+			if r.Allowed != nil && succ.Parent() == r.Fi.Fn && !r.Allowed[succ] {
 				continue
 			}
 			if _, ok := parent[succ]; !ok && succ != b {
@@ -431,9 +662,28 @@ func (r *Region) Escape(avoid Ev) (bool, []*ssa.BasicBlock) {
 				break
 			}
 			if _, ok := in.(*ssa.Return); ok {
+				if b.Parent() != r.Fi.Fn {
+					// the return of an immediately-invoked literal: go on after its call
+					if pt, ok := resumeAfter(b); ok {
+						if _, ok := parent[pt.B]; !ok && pt.B != b {
+							parent[pt.B] = b
+						}
+						stack = append(stack, wstate{pt.B, pt.I, nil})
+					}
+					blocked = true
+					break
+				}
 				return true, pathTo(parent, b)
 			}
 			if isDeadEnd(in) {
+				blocked = true
+				break
+			}
+			if g := iifeCallee(in); g != nil {
+				if _, ok := parent[g.Blocks[0]]; !ok {
+					parent[g.Blocks[0]] = b
+				}
+				stack = append(stack, wstate{g.Blocks[0], 0, nil})
 				blocked = true
 				break
 			}
@@ -449,7 +699,7 @@ func (r *Region) Escape(avoid Ev) (bool, []*ssa.BasicBlock) {
 				continue
 			}
 			edgeBlocked := false
-			for _, it := range r.Fi.EdgeItems(b, k) {
+			for _, it := range edgeItemsOf(b, k) {
 				if avoid != nil && avoid(it) {
 					edgeBlocked = true
 				}
@@ -460,7 +710,7 @@ func (r *Region) Escape(avoid Ev) (bool, []*ssa.BasicBlock) {
 			if r.Head != nil && succ == r.Head {
 				return true, append(pathTo(parent, b), succ)
 			}
-			if r.Allowed != nil && !r.Allowed[succ] {
+			if r.Allowed != nil && succ.Parent() == r.Fi.Fn && !r.Allowed[succ] {
 				if r.NoExitEnd {
 					continue
 				}
@@ -531,6 +781,18 @@ func (r *Region) Find(ev Ev) []Item {
 				dead = true
 				break
 			}
+			if g := iifeCallee(b.Instrs[i]); g != nil {
+				stack = append(stack, wstate{g.Blocks[0], 0, nil})
+				dead = true
+				break
+			}
+			if _, isRet := b.Instrs[i].(*ssa.Return); isRet && b.Parent() != r.Fi.Fn {
+				if pt, ok := resumeAfter(b); ok {
+					stack = append(stack, wstate{pt.B, pt.I, nil})
+				}
+				dead = true
+				break
+			}
 		}
 		if dead {
 			continue
@@ -542,7 +804,7 @@ func (r *Region) Find(ev Ev) []Item {
 			if r.Cut != nil && r.Cut(b, succ) {
 				continue
 			}
-			for _, it := range r.Fi.EdgeItems(b, k) {
+			for _, it := range edgeItemsOf(b, k) {
 				if ev(it) {
 					dup := false
 					for _, o := range out {
@@ -558,7 +820,7 @@ func (r *Region) Find(ev Ev) []Item {
 			if r.Head != nil && succ == r.Head {
 				continue
 			}
-			if r.Allowed != nil && !r.Allowed[succ] {
+			if r.Allowed != nil && succ.Parent() == r.Fi.Fn && !r.Allowed[succ] {
 				continue
 			}
 			stack = append(stack, mkState(b, succ))
